@@ -151,6 +151,7 @@ type srvRun struct {
 	gates    []*gate
 	cbRes    map[string]string // callback tag -> result description
 	cbCancel map[string]context.CancelFunc
+	cbIDs    map[string]string // callback tag -> id of the pushed request
 	nextSend int
 	Status   *jrpc2.ServerStatus
 	Snap     jrpc2.VerifServerSnapshot // at quiescence before shutdown
@@ -262,6 +263,16 @@ func (r *srvRun) releaseGate(g *gate) {
 func (r *srvRun) drainOut() {
 	for _, b := range r.cli.in.drain() {
 		r.logf("out %s", b)
+		var push struct {
+			ID     json.RawMessage `json:"id"`
+			Method string          `json:"method"`
+			Params []string        `json:"params"`
+		}
+		if json.Unmarshal(b, &push) == nil && push.Method == "cbm" && len(push.Params) > 0 {
+			r.hmu.Lock()
+			r.cbIDs[push.Params[0]] = string(push.ID)
+			r.hmu.Unlock()
+		}
 	}
 }
 
@@ -289,7 +300,7 @@ func memberTags(rec string) []string {
 // runServerScenario executes sc under the schedule chosen by pickFn. pickFn(n) returns a number
 // in [0,n). The run ends at quiescence with nothing left to do, then the peer closes.
 func runServerScenario(t *testing.T, sc *srvScenario, pickFn func(n int) int, skipSites map[string]bool) *srvRun {
-	r := &srvRun{sc: sc, cbRes: map[string]string{}, cbCancel: map[string]context.CancelFunc{}}
+	r := &srvRun{sc: sc, cbRes: map[string]string{}, cbCancel: map[string]context.CancelFunc{}, cbIDs: map[string]string{}}
 	r.sched = &sched{skip: skipSites}
 	maxSteps := sc.MaxSteps
 	if maxSteps == 0 {
@@ -328,6 +339,14 @@ func runServerScenario(t *testing.T, sc *srvScenario, pickFn func(n int) int, sk
 			nOps := 0
 			if nextOp < len(sc.Ops) {
 				nOps = 1
+				if op := sc.Ops[nextOp]; op.Kind == "cbreply" || op.Kind == "cbreplyerr" {
+					r.hmu.Lock()
+					_, pushed := r.cbIDs[op.Arg]
+					r.hmu.Unlock()
+					if !pushed {
+						nOps = 0 // the peer can only answer a callback it has seen
+					}
+				}
 			}
 			total := len(ps) + len(gs) + nOps
 			if total == 0 && !r.heldOpen {
@@ -400,6 +419,18 @@ func runServerScenario(t *testing.T, sc *srvScenario, pickFn func(n int) int, sk
 					r.nextSend++
 					r.sendTags = append(r.sendTags, memberTags(op.Arg))
 					r.cli.Send([]byte(op.Arg))
+				case "cbreply", "cbreplyerr":
+					r.hmu.Lock()
+					id := r.cbIDs[op.Arg]
+					r.hmu.Unlock()
+					msg := fmt.Sprintf(`{"jsonrpc":"2.0","id":%s,"result":"res-%s"}`, id, op.Arg)
+					if op.Kind == "cbreplyerr" {
+						msg = fmt.Sprintf(`{"jsonrpc":"2.0","id":%s,"error":{"code":77,"message":"cberr-%s"}}`, id, op.Arg)
+					}
+					r.logf("send %d %s", r.nextSend, msg)
+					r.nextSend++
+					r.sendTags = append(r.sendTags, nil)
+					r.cli.Send([]byte(msg))
 				case "stop":
 					r.logf("stop")
 					go func() { r.srv.Stop(); r.logf("stopped") }()
